@@ -257,6 +257,9 @@ def resampler_cases(draw):
         "seed": draw(st.integers(0, 2**31 - 1)),
         "wkind": draw(st.sampled_from(["uniform", "lognormal", "zeros", "one-dominant"])),
         "u0": draw(st.one_of(st.floats(0.0, 1.0, exclude_max=True), st.just(math.nextafter(1.0, 0.0)), st.just(0.0))),
+        # with clustering on, the resampler also carries a fitted clusterer (two well separated clusters of unequal mass in the
+        # second coordinate): the draw must still follow the weights it was given, nothing else
+        "clustered": draw(st.booleans()),
     }
 
 
@@ -273,6 +276,8 @@ def _history(case):
         tag += nt
         u = rng.random((nt, d))
         u[:, 0] = (ids + 0.5) / N  # the row's own index, recoverable from u
+        if case.get("clustered") and d >= 2:
+            u[:, 1] = np.where(ids % 4 == 0, 0.8, 0.2) + 0.02 * (u[:, 1] - 0.5)
         x = 3.0 * u - 1.0
         logl = -(ids.astype(float) + 0.25)
         cur = dict(u=u, x=x, logl=logl, beta=min(1.0, 0.1 * (t + 1)), logz=0.0, iter=t + 1, calls=0,
@@ -307,7 +312,15 @@ def execute_resampler(case):
     sm, N, rng = _history(case)
     w = _weights(case, N, rng)
     n = case["n_particles"]
-    rs = Resampler(sm, n, resample=case["scheme"], clusterer=None, clustering=False, have_blobs=case["blobs"])
+    clusterer, clustering = None, False
+    if case.get("clustered") and case["d"] >= 2 and N >= 12:
+        from tempest.cluster import HierarchicalGaussianMixture
+
+        clusterer = HierarchicalGaussianMixture(n_init=1, normalize=False)
+        np.random.seed(case["seed"] % (2**31))
+        lib_call(clusterer.fit, sm.get_history("u", flat=True), None, what="HierarchicalGaussianMixture.fit")
+        clustering = True
+    rs = Resampler(sm, n, resample=case["scheme"], clusterer=clusterer, clustering=clustering, have_blobs=case["blobs"])
     np.random.seed(case["seed"] % (2**31))
     if case["scheme"] == "syst":
         with scripted_uniform(case["u0"]) as calls:
@@ -340,7 +353,8 @@ def execute_resampler(case):
         if np.any(cnt < np.floor(nw - 1e-9)) or np.any(cnt > np.ceil(nw + 1e-9)):
             raise Violation("systematic Resampler.run: copies not floor/ceil of n*w", sig={"kind": "floor-ceil"})
     return {"nontrivial": N >= 2 and n >= 2 and int(np.sum(w > 0)) >= 2,
-            "classes": [case["scheme"], "blobs" if case["blobs"] else "noblobs", "w:" + case["wkind"]]}
+            "classes": [case["scheme"], "blobs" if case["blobs"] else "noblobs", "w:" + case["wkind"],
+                        "clusterer:K=%d" % int(getattr(clusterer, "n_clusters_", 0)) if clustering else "no-clusterer"]}
 
 
 # ----------------------------------------------------------------------------- multinomial unbiasedness (STAT)
